@@ -176,16 +176,21 @@ def run(rec):
         Hd = dense_terms(sites, terms, strengths)
         import scipy.linalg
         for approx, power in (('I', 2), ('II', 2)):
-            errs = []
-            for t in (0.02, 0.01):
-                ok, U = rec.guarded(f'make_U_{approx}:exception', lambda: H.make_U(-1.j * t, approx), {'sites': fname})
-                if not ok:
-                    break
-                errs.append(np.linalg.norm(mpo_dense(U, sites) - scipy.linalg.expm(-1.j * t * Hd)))
-            rec.case((fname, 'make_U', approx), True)
-            if len(errs) == 2 and errs[1] > 1e-13:
-                order = np.log2(errs[0] / errs[1])
-                rec.check(order > power - 0.4, f'make_U_{approx}:error-order', f'errors {errs}: observed order {order:.2f} < documented {power}', {'sites': fname})
+            for kind, unit in (('real-time', -1.j), ('imaginary-time', -1.0)):      # U ~ exp(-i t H) and U ~ exp(-tau H)
+                errs = []
+                for t in (0.02, 0.01):
+                    ok, U = rec.guarded(f'make_U_{approx}:exception', lambda: H.make_U(unit * t, approx), {'sites': fname, 'dt': str(unit * t)})
+                    if not ok:
+                        break
+                    errs.append(np.linalg.norm(mpo_dense(U, sites) - scipy.linalg.expm(unit * t * Hd)))
+                    # building the propagator leaves the Hamiltonian alone
+                    rec.check(np.allclose(mpo_dense(H, sites), Hd, atol=1e-10), f'make_U_{approx}:changes-the-Hamiltonian',
+                              f'|dH| = {np.linalg.norm(mpo_dense(H, sites) - Hd)} after make_U({unit * t})', {'sites': fname, 'dt': str(unit * t)})
+                rec.case((fname, 'make_U', approx, kind), True)
+                if len(errs) == 2 and errs[1] > 1e-13:
+                    order = np.log2(errs[0] / errs[1])
+                    rec.check(order > power - 0.4, f'make_U_{approx}[{kind}]:error-order',
+                              f'errors {errs}: observed order {order:.2f} < documented {power}', {'sites': fname})
     infinite_mpos(rec, rng, quick)
 
 
